@@ -63,6 +63,7 @@ enum CbKind {
   CB_BADCALL = 4,    // malformed client call inside the callback (arg = kind)
   CB_RESIZE = 5,     // setCellWidth/Height with current values (marks size update)
   CB_NEST = 6,       // run an independent placement of another circuit
+  CB_BADPARAMS = 7,  // write an out-of-range value into the caller-owned parameter object of this call (arg = which)
   CB_NKINDS
 };
 struct CbAction {
